@@ -2098,7 +2098,7 @@ def list_shard(sh, item, seed, cfg, st):
 #                 arrays released and allocated again and again make address reuse as likely as in user code.
 OBJ_PROBES = [("fr", "plus1"), ("bin", "2"), ("pad", "w1"), ("crop", "all_first")]
 OBJ_MUTATIONS = [(("pad", "lo1"),), (("crop", "all_last"),), (("crop", "all_first"),), (("arr",),)]
-OBJ_CYCLE_PROBES = OBJ_PROBES + [("fr", "minus1"), ("fr", "x2_ax0"), ("bin", "2_mean"), ("idx", "::2")]
+OBJ_CYCLE_PROBES = OBJ_PROBES + [("fr", "minus1"), ("fr", "x2_ax0")]
 OBJ_REPLACEMENTS = {
     "pad_then_crop": (("pad", "lo1"), ("crop", "all_last")),
     "crop_then_pad": (("crop", "all_first"), ("pad", "lo1")),
@@ -2108,8 +2108,7 @@ OBJ_REPLACEMENTS = {
     "assign_same_content": (("arr_same",),),
     "resample_up_down": (("fr", "plus1"), ("fr", "minus1")),
 }
-OBJ_TREE_INITIALS = [("Dataset", (4,), "float32"), ("Dataset", (3, 4), "complex64"), ("Dataset2d", (3, 4), "int16"), ("Dataset3d", (2, 3, 4), "float32"),
-                     ("Dataset4dstem", (2, 1, 3, 2), "complex64")]
+OBJ_TREE_INITIALS = [("Dataset", (4,), "float32"), ("Dataset2d", (3, 4), "int16"), ("Dataset", (2, 3, 4), "complex64")]
 
 
 def obj_alphabet():
@@ -2171,10 +2170,13 @@ def obj_event_text(ev, shape):
     return "on the object itself: " + "; ".join(parts)
 
 
-def run_obj_history(init_i, seed, hist, st, fails_out, judge_all=True, pool=None, verbose=False):
-    """One history on ONE object. Returns (number of executions, number of steps done). Stops at the first failure;
-    fails_out gets (class, message, length of the failing prefix)."""
+def run_obj_history(init_i, seed, hist, st, fails_out, judge_all=True, pool=None, verbose=False, trace=None):
+    """One history on ONE object, observed and judged step by step. Returns (number of executions, number of steps
+    done). Stops at the first failure; fails_out gets (class, message, length of the failing prefix). `trace` (a list)
+    receives per step (fingerprint of the object after the step, fingerprint of the probe result | None) or None for a
+    step that is not applicable."""
     pool = {} if pool is None else pool
+    trace = [] if trace is None else trace
     obj = make_init(init_i, seed)
     nexec = arr_k = 0
     at_probe = []
@@ -2187,6 +2189,7 @@ def run_obj_history(init_i, seed, hist, st, fails_out, judge_all=True, pool=None
         if ev[0] == "pr":
             pev = ev[1:]
             if not applicable(pev, n):
+                trace.append(None)
                 continue
             fp = fingerprint(obj)
             key = (shape, snap.a.dtype.str)
@@ -2268,9 +2271,93 @@ def run_obj_history(init_i, seed, hist, st, fails_out, judge_all=True, pool=None
         if fails:
             fails_out.extend((c, m, j + 1) for c, m in fails)
             return nexec, j + 1
+        trace.append((fingerprint(obj), fingerprint(succ) if ev[0] == "pr" and status == "ok" and succ is not None else None))
         if obj.array.size == 0:
             return nexec, j + 1
     return nexec, len(hist)
+
+
+def run_obj_raw(init_i, seed, hist, pool):
+    """The same history on ONE fresh object the way user code runs it: nothing but the public calls, no snapshot, no
+    model, no second object in between (the only harness activity is taking fingerprints, which creates no arrays).
+    Returns (trace like run_obj_history, exception | None, number of executions)."""
+    obj = make_init(init_i, seed)
+    trace, arr_k, nexec = [], 0, 0
+    for ev in hist:
+        ev = tuple(tuple(x) if isinstance(x, list) else x for x in ev)
+        try:
+            if ev[0] == "pr":
+                if not applicable(ev[1:], obj.array.ndim):
+                    trace.append(None)
+                    continue
+                r = _apply_copying(obj, ev[1:])
+                nexec += 1
+                trace.append((fingerprint(obj), fingerprint(r)))
+                del r
+            else:
+                contents = []
+                for sub in ev[1:]:
+                    if sub[0] == "arr":
+                        contents.append(obj_content(pool, seed, init_i, obj.array.shape, obj.array.dtype, arr_k))
+                        arr_k += 1
+                obj_apply_raw(obj, ev[1:], contents)
+                nexec += len(ev) - 1
+                trace.append((fingerprint(obj), None))
+        except Exception as e:
+            return trace, e, nexec
+        if obj.array.size == 0:
+            break
+    return trace, None, nexec
+
+
+def fp_close(a, b, st):
+    """Two fingerprints that differ in the array bytes only, by less than the model tolerance (floating-point operations)."""
+    if any(x != y for k, (x, y) in enumerate(zip(a, b)) if k != 3):
+        return False
+    x, y = (np.frombuffer(f[3], dtype=np.dtype(f[1])).astype(np.complex128) for f in (a, b))
+    err = float(np.abs(x - y).max()) / max(1.0, float(np.abs(y).max())) if x.size else 0.0
+    if err <= (TOL_SINGLE if np.dtype(a[1]) in (np.float32, np.complex64) else TOL_DOUBLE):
+        st["obj_raw_result_close_not_bitwise"] += 1
+        return True
+    return False
+
+
+def fp_text(fp):
+    return f"{fp[0]}(shape={fp[2]}, dtype={np.dtype(fp[1])}, array={np.frombuffer(fp[3], dtype=np.dtype(fp[1])).tolist()[:8]}{'...' if len(fp[3]) > 8 * np.dtype(fp[1]).itemsize else ''}, origin={np.frombuffer(fp[5], dtype=np.dtype(fp[4])).tolist()}, sampling={np.frombuffer(fp[7], dtype=np.dtype(fp[6])).tolist()}, units={list(fp[8])})"
+
+
+def obj_both_runs(init_i, seed, hist, st, fails_out, judge_all, pool, verbose=False):
+    """The observed run (every step judged) and, when it has no failure, the unobserved run of the same history; the two
+    must agree step by step: object after the step and probe result, bit for bit (floating-point results: within the
+    model tolerance). What the observed run has checked against the model then holds for the unobserved run too."""
+    trace = []
+    nexec, done = run_obj_history(init_i, seed, hist, st, fails_out, judge_all=judge_all, pool=pool, verbose=verbose, trace=trace)
+    if fails_out:
+        return nexec
+    raw, exc, ne = run_obj_raw(init_i, seed, hist, pool)
+    nexec += ne
+    st["obj_unobserved_runs"] += 1
+    for j, (a, b) in enumerate(zip(raw, trace)):
+        if a is None or b is None:
+            continue
+        ev = hist[j]
+        for k, what in ((0, "the object after the step"), (1, "the probe result")):
+            if a[k] is None or b[k] is None or a[k] == b[k]:
+                continue
+            if k == 1 and not EXACT.get(ev[1], True) and fp_close(a[k], b[k], st):
+                continue
+            if k == 0 and ev[0] == "mu" and not all(EXACT.get(s_[0], True) for s_ in ev[1:]) and fp_close(a[k], b[k], st):
+                continue
+            fails_out.append(({"relation": "unobserved_run_equals_observed_run", "op": ev[1] if ev[0] == "pr" else "+".join(s_[0] for s_ in ev[1:]), "field": fp_diff(b[k], a[k]), "tier": "one_object"},
+                              f"step {j + 1} ({obj_event_text(ev, ())}) of a history executed on one object with nothing in between: {what} is {fp_text(a[k])}; "
+                              f"in the same history observed step by step (every step checked against the model) it is {fp_text(b[k])}", j + 1))
+            if verbose:
+                print(f"  unobserved run, step {j + 1}: {what} differs from the observed run")
+            return nexec
+    if exc is not None or len(raw) != len(trace):
+        fails_out.append(({"relation": "unobserved_run_equals_observed_run", "op": "-", "field": "raised" if exc is not None else "length", "tier": "one_object"},
+                          f"the history executed on one object with nothing in between stopped after {len(raw)} steps ({exc!r}); observed step by step it runs through {len(trace)} steps", min(len(raw) + 1, len(hist))))
+    return nexec
 
 
 def obj_case(init_i, hist, judge_all):
@@ -2290,7 +2377,7 @@ def obj_shard(sh, item, seed, cfg, st):
                     st["obj_histories_below_a_failed_prefix"] += 1
                     continue
                 fails = []
-                nexec, _ = run_obj_history(init_i, seed, hist, st, fails, judge_all=False, pool=pool)
+                nexec = obj_both_runs(init_i, seed, hist, st, fails, False, pool)
                 sh.t.case(nontrivial=False, n=nexec)
                 st["obj_executions"] += nexec
                 st["obj_tree_histories"] += 1
@@ -2305,7 +2392,7 @@ def obj_shard(sh, item, seed, cfg, st):
             for rname in sorted(OBJ_REPLACEMENTS):
                 hist = [("pr",) + P] + [("mu",) + OBJ_REPLACEMENTS[rname], ("pr",) + P] * cfg["obj_cycles"]
                 fails = []
-                nexec, _ = run_obj_history(init_i, seed, hist, st, fails, judge_all=True, pool=pool)
+                nexec = obj_both_runs(init_i, seed, hist, st, fails, True, pool)
                 sh.t.case(nontrivial=False, n=nexec)
                 st["obj_executions"] += nexec
                 st["obj_cycle_histories"] += 1
@@ -2614,7 +2701,7 @@ def replay(ctx, case):
     if case.get("kind") == "obj":
         i = int(case["init"])
         print(f"  initial {INITIALS[i]} (seed {ctx.seed}); ONE object lives through the history of {len(case['history'])} events (mutations in place on the object, probes = copying variants on it):")
-        run_obj_history(i, ctx.seed, case["history"], Tally().extra, fails, judge_all=bool(case.get("judge_all", True)), verbose=True)
+        obj_both_runs(i, ctx.seed, [tuple(tuple(x) if isinstance(x, list) else x for x in e) for e in case["history"]], Tally().extra, fails, bool(case.get("judge_all", True)), {}, verbose=True)
         for cls, msg, _ in fails:
             ctx.fail(cls, case, msg)
             print(f"  observed vs expected: {msg}")
